@@ -533,7 +533,7 @@ Qed.
 
 (* One lemma per layout variant, so that a changed width / sign flag / converter / field order in pyais/messages.py is
    reported under the name of the variant, with the complaint of the checker in the error message
-   (e.g. Unable to unify "[]" with "["lon: signature (type, sign or converter)"]"). *)
+   (e.g. Unable to unify "[]" with "["MessageType17.lon: signature (type, sign or converter)"]"). *)
 Ltac table_check := vm_compute; reflexivity.
 Lemma tables_match_spec_V1 : layout_errors (cls_of V1) V1 = []. Proof. table_check. Qed.
 Lemma tables_match_spec_V2 : layout_errors (cls_of V2) V2 = []. Proof. table_check. Qed.
